@@ -18,7 +18,7 @@ from typing import Any, Dict, Optional, Tuple
 
 NODEFAULT = ('nodefault',)
 ABSENT = ('absent',)
-TYPES = {None: None, 'int': int, 'str': str}
+TYPES = {None: None, 'int': int, 'str': str, 'tuple': tuple}
 
 
 class Rejected(Exception):
